@@ -671,12 +671,12 @@ func (i *Snapshot) readSegmentSnapshot(br *bufio.Reader) (bytesRead int64, ss *s
 	bytesRead += int64(sz)
 
 	if delLen > 0 {
-		deletedBytes := make([]byte, int(delLen))
-		sz, err = io.ReadFull(br, deletedBytes)
+		var deletedBytes []byte
+		deletedBytes, err = readBytes(br, delLen)
+		bytesRead += int64(len(deletedBytes))
 		if err != nil {
 			return bytesRead, nil, fmt.Errorf("error reading snapshot %d: %w", i.epoch, err)
 		}
-		bytesRead += int64(sz)
 
 		rr := bytes.NewReader(deletedBytes)
 		deletedBitmap := roaring.NewBitmap()
@@ -704,13 +704,35 @@ func readVarLenString(r *bufio.Reader) (n int, str string, err error) {
 	}
 	n += sz
 
-	strBytes := make([]byte, strLen)
-	sz, err = r.Read(strBytes)
+	strBytes, err := readBytes(r, strLen)
+	n += len(strBytes)
 	if err != nil {
 		return n, "", err
 	}
-	n += sz
 	return n, string(strBytes), nil
+}
+
+// maxUnverifiedAlloc bounds what is allocated at once on the word of a length
+// field: lengths are read before the checksum of the file has been verified
+const maxUnverifiedAlloc = 4096
+
+// readBytes reads exactly n bytes from r. The result grows only as the data
+// actually arrives, so a damaged length cannot force a huge allocation.
+func readBytes(r io.Reader, n uint64) (rv []byte, err error) {
+	for uint64(len(rv)) < n {
+		want := n - uint64(len(rv))
+		if want > maxUnverifiedAlloc {
+			want = maxUnverifiedAlloc
+		}
+		start := len(rv)
+		rv = append(rv, make([]byte, want)...)
+		var sz int
+		sz, err = io.ReadFull(r, rv[start:])
+		if err != nil {
+			return rv[:start+sz], err
+		}
+	}
+	return rv, nil
 }
 
 func (i *Snapshot) DocumentValueReader(fields []string) (
